@@ -24,6 +24,7 @@ SELFTEST_MAP = {
     "count_not_undone_on_oom.patch": ["C14"],
     "zbdd_satcount_unguarded_sub.patch": ["C12"],
     "saturating_checked_shl.patch": ["C12"],
+    "varnamemap_derived_clone.patch": ["C16"],
     "dddmp_unchecked_index.patch": ["C15"],
     "dddmp_unchecked_sub.patch": ["C15"],
     "dddmp_unclamped_prealloc.patch": ["C15"],
